@@ -51,7 +51,7 @@ DIMS = {
     'mag': ['tau1', 'thin', 'mixed'],
     # default letters are the collision-prone ones: adjacent layers at exactly equal temperature, abundances that
     # vary with altitude (squeezing the fill gases) and one species that is exactly zero in part of the atmosphere
-    'T': [['steps'], ['dec'], ['iso', 1000.0]],
+    'T': [['steps'], ['dec'], ['iso', 1000.0], ['aba']],
     'shape': ['vary', 'const'],
     # correlated-k: the optical depths of different sources still add (only the molecules inside the absorption
     # source are combined per quadrature point), so everything except the per-molecule product is demanded
@@ -234,6 +234,24 @@ def case_fn(case):
                                    np.asarray(mv.deltaz, float))
     for c in mv.contribution_list:
         nm = type(c).__name__
+        if nm == 'HydrogenIon':
+            # weighted opacity = (a function of wavelength and temperature) x pressure x H x e- layer by layer: divided
+            # by its weights it is the same in any two layers at the same temperature, and nowhere zero where the
+            # weights are not
+            comps = [(n_, np.array(s_, float)) for n_, s_ in c.prepare_each(mv, grid)]
+            if r.check(len(comps) == 1 and comps[0][1].shape == (N, len(grid)), 'component-weighted-opacity',
+                       'component/HydrogenIon/shape'):
+                wgt = P * np.asarray(mv.chemistry.get_gas_mix_profile('H'), float) * \
+                    np.asarray(mv.chemistry.get_gas_mix_profile('e-'), float)
+                kk = comps[0][1] / wgt[:, None]
+                r.check(bool(np.all(np.isfinite(kk)) and np.all(kk.max(axis=1) > 0)), 'component-weighted-opacity',
+                        'component/HydrogenIon/zero-layer', got=kk.max(axis=1), T=T)
+                for a_ in range(N):
+                    for b_ in range(a_ + 1, N):
+                        if T[a_] == T[b_]:
+                            r.eq(kk[a_], kk[b_], 'component-weighted-opacity', 'component/HydrogenIon/same-temperature',
+                                 rtol=1e-12, layers=[a_, b_], T=T)
+            continue
         if nm not in ('AbsorptionContribution', 'CIAContribution', 'RayleighContribution'):
             continue
         if isk and nm == 'AbsorptionContribution':
